@@ -82,6 +82,13 @@ class NoneObject:
     def __len__(self):
         return 0
 
+    def __getattr__(self, name):
+        # an attribute of a missing field is missing as well (r.parent.name on a record without `parent`); the
+        # interpreted selector does the same through getattr(obj, name, NONE_OBJECT)
+        if name.startswith("__"):
+            raise AttributeError(name)
+        return self
+
 
 NONE_OBJECT = NoneObject()
 
